@@ -15,7 +15,10 @@ CompatSymmetric == \A a, b \in Types : Compatible(a, b) = Compatible(b, a)
 
 Versions == {<<1, 0>>, <<2, 1>>, <<3, 0>>, <<3, 1>>, <<4, 0>>}
 VersionOK(v) == v[1] > 3 \/ (v[1] = 3 /\ v[2] >= 0)
-Mechs == {"NULL", "PLAIN", "CURVE", "FOO"}
+\* the 20-octet mechanism field: a name, NUL-padded.  Besides the three names of RFC 23/24/25/26 and an unknown one: names that
+\* only START with a known name or are a proper prefix of one, the empty name, a wrong-case name, and names of 19 and of all 20
+\* octets (no padding at all)
+Mechs == {"NULL", "PLAIN", "CURVE", "FOO", "NULLX", "PLAINTEXT", "CURVEZMQ", "NUL", "", "null", "ABCDEFGHIJKLMNOPQRS", "X-CUSTOM-MECH.V1+ABC"}
 MechOK(m) == m \in {"NULL", "PLAIN", "CURVE"}
 Sigs == {"ok", "bad0", "bad9"}
 Idents == {"none", "empty", "one", "max255", "over256"}
